@@ -211,6 +211,11 @@ def run(ctx):
                         for n in cfg.nodes:
                             if n.kind == "stmt" and isinstance(n.ast, ast.AugAssign) and isinstance(n.ast.op, ast.BitOr) and cfg.dominates(e.id, n.id):
                                 adds |= {x.attr for x in walk_no_nested(n.ast.value) if isinstance(x, ast.Attribute) and x.attr.isupper()}
+                            # `return flags | X` / `flags = flags | X`
+                            if n.kind in ("stmt", "return") and cfg.dominates(e.id, n.id):
+                                v = getattr(n.ast, "value", None)
+                                if isinstance(v, ast.BinOp) and isinstance(v.op, ast.BitOr) and isinstance(n.ast, (ast.Return, ast.Assign)):
+                                    adds |= {x.attr for x in walk_no_nested(v) if isinstance(x, ast.Attribute) and x.attr.isupper()}
                         masks.append((f, e, m, adds))
         for f, e, m, adds in masks:
             desc = "%s: empty {%s} -> add %s" % (f.short, ",".join(sorted(m)), ",".join(sorted(adds)))
@@ -233,7 +238,8 @@ def run(ctx):
     cfg = ctx.cfg(f)
     ok = False
     for n in cfg.nodes:
-        if n.kind == "stmt" and isinstance(n.ast, ast.AugAssign) and "REQUIRED_VALUE" in norm(n.ast.value):
+        if n.kind in ("stmt", "return") and isinstance(n.ast, (ast.AugAssign, ast.Assign, ast.Return)) and n.ast.value is not None and "REQUIRED_VALUE" in norm(n.ast.value) \
+                and (isinstance(n.ast, ast.AugAssign) or isinstance(n.ast.value, ast.BinOp)):
             ts = [bit_of(e.ast) for e in cfg.nodes if e.kind == "T" and cfg.dominates(e.id, n.id)]
             if "MULTI_VALUED" in ts:
                 ok = True
